@@ -51,7 +51,7 @@ try:
     res["demo_tail"] = out[-600:]
     res["checks"] = {}
     for c in checks:
-        rc, out = sh(["./check", c, "--tier", "quick"], cwd="/verif", env=dict(ENV, VERIF_REPO=mut), timeout=3000)
+        rc, out = sh(["./check", c, "--tier", "quick"], cwd=os.environ.get("VERIF_DIR", "/verif"), env=dict(ENV, VERIF_REPO=mut), timeout=3000)
         vio = [l for l in out.split("\n") if l.startswith("VIOLATION")]
         res["checks"][c] = {"exit": rc, "violation_lines": vio[:6]}
         for l in vio[:1]:
